@@ -344,10 +344,19 @@ def gen_cases(rng, tier):
             cases.append((L('plain', fmt, doc, sops), {'kind': 'plain-' + fmt, 'nontrivial': len(ids) >= 1}))
         else:
             doc, sops, ids, max_id, g = gen_doc(rng, reals)
-            nrev = rng.choice([1, 1, 2, 3])
+            nrev = rng.choice([1, 1, 2, 3, 4])
             revs = gen_revs(rng, reals, g, ids, max_id, fmt, nrev)
             line = g.finish(L('inc', fmt, doc, sops, *revs))
             cases.append((line, {'kind': 'inc%d-%s' % (nrev, fmt), 'nontrivial': True}))
+    # long histories (C03_strict_history is about ANY number of updates): small documents, 5-6 updates, both formats, in every tier --
+    # a fault that shows only from the third update on (Prev skipping a revision, a counter drifting with the number of
+    # repeated header lines) has several failing inputs on every run
+    for k in range(4 if tier == 'quick' else 40):
+        for fmt in ('table', 'stream'):
+            doc, sops, ids, max_id, g = gen_doc(rng, reals, n=rng.choice([1, 2, 3, 5]))
+            nrev = rng.choice([5, 6])
+            revs = gen_revs(rng, reals, g, ids, max_id, fmt, nrev)
+            cases.append((g.finish(L('inc', fmt, doc, sops, *revs)), {'kind': 'hist%d-%s' % (nrev, fmt), 'nontrivial': True}))
     # many objects, sparse ids (xref subsections / Index pairs, offsets of 4-6 digits)
     for big in ([60, 300] if tier == 'quick' else [60, 300, 1000, 2500]):
         for fmt in ('table', 'stream'):
@@ -517,7 +526,7 @@ SPEC = {
             'bytes in names/strings/keys; streams built as struct literals and through Stream::new/compress/decompress/set_content/'
             'set_plain_content, bodies containing endstream/endobj/xref/%%EOF text, empty bodies, indirect Length; sparse object numbers, '
             'generations up to 65535; f32 reals printed by Rust; objects typed ObjStm/XRef/Linearized; trailers with stale bookkeeping keys) '
-            'saved by Document::save_to in both cross-reference formats, then 0-3 incremental updates (add_object / set_object / '
+            'saved by Document::save_to in both cross-reference formats, then 0-4 incremental updates -- 5-6 in the hist* family -- (add_object / set_object / '
             'opt_clone_object_to_new_document + stream operations) saved by IncrementalDocument::save_to after IncrementalDocument::load_from; '
             'every produced file is read by the extracted Coq strict reader; 12% documents outside the domain and byte-level damage of real '
             'output serve as negative controls; non-trivial = at least one object; distinct = distinct case text',
@@ -682,17 +691,20 @@ def replay(ctx, payload):
 
 PARTIAL_NOTE = ('proved for the writer model (Model/Save.v, Model/Incremental.v): C03_strict (strict_load (save x d) = SOk (sdoc_of x d), both '
                 'cross-reference formats, every strict_savable document below 4 GiB), C03_all_bytes_accounted, C03_object_rt (strict tokenizer '
-                'against write_object, every well-formed direct object), C03_strict_incremental (ONE update appended to a plain save, both formats). '
-                'NOT proved: a history of two or more updates (the second update would need the same theorem with an incremental file as first '
-                'revision: the statement generalises -- revision-in-context lemmas are format- and position-independent -- but the induction over '
-                'the history is not done); updates whose previous document came from IncrementalDocument::load_from are covered through the '
-                'hypothesis inc_update (trailer Prev = previous startxref, max_id not below the previous one), not derived from a model of the loader; '
-                'files of 4 GiB and more are outside the domain (u32 offsets)')
+                'against write_object, every well-formed direct object), C03_strict_incremental (one update), C03_strict_history (ANY number of '
+                'updates: every file of a history in the sense of C07 lopdf_history -- save, then load + create_from + edits + '
+                'IncrementalDocument::save any number of times -- is accepted with the explicit result sdoc_of_history; the shape of each update, '
+                'Prev = previous startxref and max_id not below any number listed before, is derived from Model/Incremental.v and the loader model), '
+                'C03_all_bytes_accounted_history, C03_history_newest_wins. Remaining restrictions: a history keeps one cross-reference format (as '
+                'new_from_prev does; mixed formats are proved at the layout level, C03_strict_chain); the objects a caller puts into new_document '
+                'must be in the writer domain (numbers <= max_id as add_object maintains, well-formed, no skipped types) and carry C07 hypotheses '
+                '(outside C01-deep-nesting, identifiers re-used or fresh) because the histories are C07 histories; the loader in the derivation is the '
+                'model Model/Loader.v (tied to the crate by ./check C01 / C07); files of 4 GiB and more are outside the domain (u32 offsets)')
 
 MANIFEST = {
     'level_text': 'The reference reader of the property is a Coq specification (Spec/StrictReader.v, written from ISO 32000-1 7.2/7.3/7.5, sharing '
                   'no definition with lopdf models); it is extracted and run on the bytes the real Document::save_to / IncrementalDocument::save_to '
-                  'produce for generated documents (both cross-reference formats, plain and 1-3 incremental updates): a file is accepted only if header '
+                  'produce for generated documents (both cross-reference formats, plain and 1-6 incremental updates): a file is accepted only if header '
                   'and binary comment, startxref target, 20-byte entries, W/Index/Length consistency, exact entry offsets with matching id/gen, stream '
                   'Length, Size, the Prev chain and a gap-free, overlap-free tiling of every byte hold, and the recovered objects/trailer/version equal '
                   'what was saved. Machine-checked proofs: (1) acceptance by that reader implies each of these facts (C03_accept_sound, '
@@ -703,13 +715,20 @@ MANIFEST = {
                   'tile [0,|file|) without gap or overlap), C03_object_rt (the strict tokenizer reads write_object o back for every well-formed direct '
                   'object, any nesting depth, any bytes), C03_save_indirect_object (stream Length exact also when the content contains endstream); '
                   '(3) about the incremental writer model Model/Incremental.v: C03_strict_incremental -- one update appended to a plain save is accepted, '
-                  'the previous file is a verbatim prefix, Prev is followed, both revisions tile the file, the newest revision decides per object number.',
-    'level_note': 'Partial: a history of two or more incremental updates is not proved (one update is; the run-time tie covers 1-3 updates on every run); '
-                  'the incremental theorem takes the shape of the update (Prev = previous startxref, max_id not below the previous one) as hypotheses '
-                  'C07 proves for its model of the editing operations, not from a model of IncrementalDocument::load_from. Files >= 4 GiB excluded '
+                  'the previous file is a verbatim prefix, Prev is followed, both revisions tile the file, the newest revision decides per object number; '
+                  '(4) histories of ANY length: C03_strict_history -- for every history in the sense of C07 (Document::save, then any number of '
+                  'load + create_from + modelled edits + IncrementalDocument::save) strict_load (bytes) = SOk (sdoc_of_history), by induction over '
+                  'read_chain / check_revs / read_all / the fillers / the k-fold merge; the shape of every update (layout, Prev = previous startxref, '
+                  'max_id not below any number an older section lists) is derived from the models (C03_history_shape, C03_history_update_step), not '
+                  'assumed; C03_all_bytes_accounted_history (revision after revision: filler, objects, section, marker consecutive from the end of the '
+                  'previous file to the end of this one), C03_history_newest_wins (per identifier the newest revision listing the number decides), '
+                  'C03_strict_chain (layout level, cross-reference format may change from revision to revision).',
+    'level_note': 'Restrictions: a history keeps one cross-reference format (mixed chains only at the layout level); the objects put into '
+                  'new_document are in the writer domain and meet the hypotheses of C07 histories (these are about the caller, not the writer); the '
+                  'loader in the derivation is the model Model/Loader.v. Files >= 4 GiB excluded '
                   '(u32 offsets). Trusted: Coq kernel; extraction/OCaml driver; Rust harness; Python comparison of recovered and saved objects '
-                  '(numbers by value); Model/Save.v and Model/Incremental.v correspond to the crate as far as ./check C01 / C07 exercise them. '
-                  'No axioms (Print Assumptions: closed for all 32 theorems).',
+                  '(numbers by value); Model/Save.v, Model/Incremental.v and Model/Loader.v correspond to the crate as far as ./check C01 / C07 exercise them. '
+                  'No axioms (Print Assumptions: closed for all 42 theorems).',
     'technique': 'Coq specification extracted and run on the real output (spec-as-oracle) + Coq proofs of spec soundness and of writer-model/spec agreement',
     'design_ref': 'DESIGN.md 6 C03',
 }
